@@ -146,10 +146,16 @@ def run_shape(prog, shape, tier, seed, res):
                 observables.append((nm + ' Debug#', render(m, v, 'debug#')))
                 observables.append((nm + ' Display', render(m, v, 'display')))
                 observables.append((nm + ' Display#', render(m, v, 'display#')))
-            observables.append(('KeyTooLongError Debug', render(m, Adt('KeyTooLongError', None, []), 'debug')))
-            observables.append(('KeyTooLongError Debug#', render(m, Adt('KeyTooLongError', None, []), 'debug#')))
-            observables.append(('KeyTooLongError Display', render(m, Adt('KeyTooLongError', None, []), 'display')))
-            observables.append(('KeyTooLongError Display#', render(m, Adt('KeyTooLongError', None, []), 'display#')))
+            # the error value that from_str really returns for a secret that does not fit (41 and 64 symbolic bytes)
+            for n_long in (41, 64):
+                long_secret = [Int('u8', ctx.fresh_bv('SECRET_long%d_%d' % (n_long, i), 8)) for i in range(n_long)]
+                for e in long_secret:
+                    ctx.assume(z3.And(z3.UGE(e.v, 0x21), z3.ULT(e.v, 0x7F), e.v != 0x22, e.v != 0x5C, e.v != 0x27))
+                rerr = m.call('<KSecretKey<M> as FromStr>::from_str', [mk_str(long_secret)], None)
+                if rerr.variant != 'Err':
+                    raise Unsupported('from_str accepted a %d-byte secret for M=44' % n_long)
+                for how, lab in (('debug', 'Debug'), ('debug#', 'Debug#'), ('display', 'Display'), ('display#', 'Display#')):
+                    observables.append(('from_str(%d bytes) error %s' % (n_long, lab), render(m, rerr.fields[0], how)))
         else:
             resp = Adt('GetSigningKeyResponse', None, [PRINCIPAL, SESSION, kg], ['principal', 'session_data', 'signing_key'])
             observables.append(('GetSigningKeyResponse Debug', render(m, resp, 'debug')))
@@ -378,8 +384,9 @@ def conformance(prog, rp, seed, tier):
         kv = m.call('KRegionKey::to_kservice', [Ptr(Cell(kr), ()), str_ptr('s')], None)
         kg = m.call('KServiceKey::to_ksigning', [Ptr(Cell(kv), ())], None)
         items = {}
+        too_long = m.call('<KSecretKey<M> as FromStr>::from_str', [mk_str(conc_bytes(AWS_SECRET + '+8Zq3LtUx'))], None)
         for nm, v in (('KSecretKey', ks), ('KDateKey', kd), ('KRegionKey', kr), ('KServiceKey', kv), ('KSigningKey', kg),
-                      ('KeyTooLongError', Adt('KeyTooLongError', None, []))):
+                      ('KeyTooLongError', too_long.fields[0])):
             for how, lab in (('debug', 'Debug'), ('debug#', 'Debug#'), ('display', 'Display'), ('display#', 'Display#')):
                 items['%s %s' % (nm, lab)] = render(m, v, how)
         req = Adt('GetSigningKeyRequest', None, [mk_string('AKID'), some(mk_string('tok')), date, mk_string('r'), mk_string('s')],
